@@ -95,6 +95,14 @@ var taskKinds = []string{"task", "serviceTask", "userTask", "manualTask", "scrip
 func (ge *gen) cond() *eng.Cond {
 	v := ge.vars[ge.rng.Intn(len(ge.vars))]
 	k := ge.rng.Intn(3)
+	if ge.rng.Fork().Intn(12) == 0 {
+		// a variable that no instance of THIS document ever defines (undefined compares unequal to everything)
+		ge.stats["conditions_on_an_undefined_variable"]++
+		if ge.rng.Fork().Intn(2) == 0 {
+			return &eng.Cond{Op: "eq", Var: "vu", K: 1}
+		}
+		return &eng.Cond{Op: "ne", Var: "vu", K: 1}
+	}
 	switch ge.rng.Intn(10) {
 	case 0, 1, 2:
 		return &eng.Cond{Op: "eq", Var: v, K: k}
